@@ -3,7 +3,7 @@ use crate::command::handlers::{
     auth, compare, define, flush, permissions, ping, remember, replay, show, store,
 };
 use crate::command::types::Command;
-use crate::engine::auth::AuthManager;
+use crate::engine::auth::{AuthManager, BYPASS_USER_ID};
 use crate::engine::schema::SchemaRegistry;
 use crate::engine::shard::manager::ShardManager;
 use crate::shared::response::render::Renderer;
@@ -25,6 +25,39 @@ pub async fn dispatch_command<W: AsyncWrite + Unpin>(
     use Command::*;
 
     debug!(target: "sneldb::dispatch", command = ?cmd, "Dispatching command");
+
+    // REPLAY, REMEMBER, SHOW, comparison and sequence queries reach stored events through
+    // handlers that do not receive the caller's identity: check read permission here.
+    if let Some(auth_mgr) = auth_manager {
+        if let Some(event_types) = read_targets(cmd, registry).await {
+            let denied = match user_id {
+                None => Some((
+                    StatusCode::Unauthorized,
+                    "Authentication required".to_string(),
+                )),
+                Some(uid) if uid == BYPASS_USER_ID => None,
+                Some(uid) => {
+                    let mut denied = None;
+                    for event_type in &event_types {
+                        if !auth_mgr.can_read(uid, event_type).await {
+                            denied = Some((
+                                StatusCode::Forbidden,
+                                format!("Read permission denied for event type '{}'", event_type),
+                            ));
+                            break;
+                        }
+                    }
+                    denied
+                }
+            };
+            if let Some((status, message)) = denied {
+                let resp = Response::error(status, &message);
+                writer.write_all(&renderer.render(&resp)).await?;
+                writer.flush().await?;
+                return Ok(());
+            }
+        }
+    }
 
     match cmd {
         Store { .. } => {
@@ -121,4 +154,62 @@ pub async fn dispatch_command<W: AsyncWrite + Unpin>(
             Ok(())
         }
     }
+}
+
+/// Event types whose stored events a command returns, for the commands whose handlers do not
+/// check the caller's read permission themselves. `None`: nothing to check here.
+async fn read_targets(
+    cmd: &Command,
+    registry: &Arc<RwLock<SchemaRegistry>>,
+) -> Option<Vec<String>> {
+    fn query_types(query: &Command, out: &mut Vec<String>) {
+        if let Command::Query {
+            event_type,
+            event_sequence,
+            ..
+        } = query
+        {
+            out.push(event_type.clone());
+            if let Some(sequence) = event_sequence {
+                out.push(sequence.head.event.clone());
+                out.extend(sequence.links.iter().map(|(_, t)| t.event.clone()));
+            }
+        }
+    }
+
+    let mut types = Vec::new();
+    match cmd {
+        Command::Replay {
+            event_type: Some(event_type),
+            ..
+        } => types.push(event_type.clone()),
+        // A replay without event type returns the context's events of every type.
+        Command::Replay {
+            event_type: None, ..
+        } => types.extend(registry.read().await.get_all().keys().cloned()),
+        Command::RememberQuery { spec } => query_types(&spec.query, &mut types),
+        Command::ShowMaterialized { name } => {
+            // The remembered query decides what SHOW returns. An unknown name is left to the
+            // handler, which answers with its usual error.
+            let data_dir = crate::shared::path::absolutize(std::path::PathBuf::from(
+                crate::shared::config::CONFIG.engine.data_dir.as_str(),
+            ));
+            if let Ok(catalog) = crate::engine::materialize::MaterializationCatalog::load(&data_dir)
+            {
+                if let Ok(Some(entry)) = catalog.get(name) {
+                    query_types(&entry.spec.query, &mut types);
+                }
+            }
+        }
+        Command::Compare { queries } => types.extend(queries.iter().map(|q| q.event_type.clone())),
+        Command::Query {
+            event_sequence: Some(_),
+            ..
+        } => query_types(cmd, &mut types),
+        _ => return None,
+    }
+    types.retain(|t| t != "*");
+    types.sort();
+    types.dedup();
+    Some(types)
 }
